@@ -177,7 +177,7 @@ def run_C01(run):
     run.validate_batch(tr, "paths-flowB")
 
 
-ALL_CAT = set(range(1, 9))
+ALL_CAT = set(range(1, 10))
 SMALL_CAT = {1, 2, 3, 5, 6}
 BASE_EXPR = dict(MaxNodes=1, UseCat=True, UseVal=False, CatIds=ALL_CAT, ElemNames={"a", "b"}, AttrNames=set(), AttrPrefixes={""}, TextVals={"1"},
                  WithComment=False)
@@ -262,6 +262,9 @@ def run_C03(run):
     ec = consts(BASE_EXPR, TextVals={"1"}, MaxNodes=5 if q else 6, UseCat=True)
     # (1) child step with a positional first predicate in 8 host positions
     run.gen_and_replay("MC_Expr", consts(ec, Family="C03a"), name="pos-first", kind="sel-set")
+    # (1b) node() / text() / comment() / * child steps among siblings of mixed kinds
+    run.gen_and_replay("MC_Expr", consts(ec, Family="C03kinds", MaxNodes=4 if q else 5, WithComment=True, ElemNames={"a"}, CatIds={2, 5, 6}),
+                       name="pos-first-mixed-kinds", kind="sel-set")
     # (2) positional predicate followed by a boolean predicate
     run.gen_and_replay("MC_Expr", consts(ec, Family="C03b", MaxNodes=4 if q else 5), name="pos-then-bool", kind="sel-set")
     # (2a) a positional child step continued by a step on every axis, by '//', by another positional step
